@@ -216,6 +216,24 @@ class C17:
             lo, hi = case["init"]
             if (lo is not None and lo > min(finals)) or (hi is not None and hi < min(finals)):
                 return result(ood=True, digest="ood")   # unsound initial bounds: outside the search's contract
+        if not items:
+            # an empty collection has no minimum, no order and nothing to separate: the property only asks for
+            # termination here - whatever is returned or raised (None, a default, ValueError like min()) is fine
+            try:
+                if alg.startswith("search"):
+                    gs.IterativeTighteningSearch(iter(()), initial_bounds=None).search()
+                elif alg == "sort":
+                    list(gb.sort([]))
+                elif alg == "min":
+                    gb.min_bounded(iter(()))
+                else:
+                    gb.make_distinct()
+            except core.RunTimeout:
+                raise
+            except Exception:
+                pass
+            reset_ids(None)
+            return result(digest="empty", counters={"alg." + alg: 1, "empty_collection": 1})
         try:
             if alg.startswith("search"):
                 pulled = [0]
